@@ -4,7 +4,7 @@ CONFIG = {
     "C01": {"timeout_s": {"quick": 900, "thorough": 7200}},
     "C02": {"timeout_s": {"quick": 900, "thorough": 7200}},
     "C03": {"floatlog": True, "timeout_s": {"quick": 900, "thorough": 7200}},
-    "C04": {"features": "std", "floatlog": True, "timeout_s": {"quick": 900, "thorough": 14400}},
+    "C04": {"features": "std,zoo", "floatlog": True, "timeout_s": {"quick": 900, "thorough": 14400}},
     "C05": {"profiles": ["release", "chk"], "sanitizers": True, "timeout_s": {"quick": 900, "thorough": 7200}},
     "C06": {"timeout_s": {"quick": 900, "thorough": 7200}},
     "C07": {"timeout_s": {"quick": 900, "thorough": 7200}},
